@@ -217,6 +217,19 @@ func genProcExt(ctx *core.Ctx) {
 			}
 		}
 	}
+	// exhaustive: mapping elements of a sequence (their path omits the key of the sequence)
+	for _, k1 := range pxKeys {
+		for _, k2 := range pxKeys {
+			for _, k3 := range []string{"depends_on", "k", "x-k"} {
+				d := tree{k1: []any{tree{k2: tree{"x-deep": 1, "k": 2}, "x-el": 1}, "s"}}
+				ctx.Count("procExt-exh-seq")
+				ctx.Add("c20.procExt", c20TreeArgs{Dict: enc(d)})
+				d = tree{k1: tree{k2: []any{tree{k3: tree{"x-deep": 1, "k": 2}, "x-el": 1}}}}
+				ctx.Count("procExt-exh-seq")
+				ctx.Add("c20.procExt", c20TreeArgs{Dict: enc(d)})
+			}
+		}
+	}
 	for i := 0; i < ctx.Pick(4000, 80000); i++ {
 		d, _ := randPxTree(ctx.Rng, 4).(tree)
 		if d == nil {
@@ -525,7 +538,7 @@ func genFlow(ctx *core.Ctx) {
 			}
 		}
 	}
-	for i := 0; i < ctx.Pick(1000, 40000); i++ {
+	for i := 0; i < ctx.Pick(1000, 20000); i++ {
 		m, env, _ := randModel(ctx.Rng, false)
 		ctx.Count("flow-random")
 		ctx.Add("c20.flow", c20TreeArgs{Dict: enc(m.main()), Env: env, PName: m.pname})
@@ -736,14 +749,14 @@ func genLeak(ctx *core.Ctx) {
 		ctx.Add("c20.leak", m.leakArgs(env, cores, "single"))
 	}
 	// random models
-	for i := 0; i < ctx.Pick(1400, 50000); i++ {
+	for i := 0; i < ctx.Pick(1400, 24000); i++ {
 		m, env, cores := randModel(ctx.Rng, false)
 		layout := []string{"single", "single", "override", "include"}[ctx.Rng.Intn(4)]
 		ctx.Count("leak-random-" + layout)
 		ctx.Add("c20.leak", m.leakArgs(env, cores, layout))
 	}
 	// malformed stream: random node kinds at resource positions, validation on or off
-	for i := 0; i < ctx.Pick(400, 15000); i++ {
+	for i := 0; i < ctx.Pick(400, 6000); i++ {
 		r := ctx.Rng
 		m, env, cores := randModel(r, false)
 		a := m.leakArgs(env, cores, "single")
